@@ -114,7 +114,28 @@ Sk17 == {<<VarS("@a", L(0)), CurDecl("cur", 31), h0, Func("f", "@p", <<h1, h2, h
          : h0 \in {CurOpen("cur"), Pr(L(0))}, h1, h2, h3 \in CurAtoms, h4 \in {CurFirst("cur", "@a"), CurIsOpen("cur")}}
 CursorPrograms == Sk16 \cup Sk17
 
-Programs == Sk16 \cup Sk17 \cup Sk14 \cup Sk15 \cup Sk11 \cup Sk12 \cup Sk13 \cup Sk1 \cup Sk2 \cup Sk3 \cup Sk4 \cup Sk5 \cup Sk6 \cup Sk7 \cup Sk8 \cup Sk9 \cup Sk10
+\* a WHILE loop inside a function left by RETURN (the loop's block and the function's block end together), afterwards blocks
+\* nested four deep, each with a variable of its own that is read after the inner block has ended, and a recursion of depth 4
+Sk18 == {<<VarS("@a", L(0)), Fact,
+           Func("upto", "@p", <<VarS("@i", L(0)), While(Lt(Vr("@i"), L(3)), <<SetS("@i", Add(Vr("@i"), L(1))), h1, If1(Lt(Vr("@p"), Vr("@i")), <<Ret(Vr("@i"))>>)>>), Ret(L(-1))>>),
+           Pr(CallF("upto", L(1))), Pr(CallF("upto", L(5))), Pr(CallF("upto", L(0))), Pr(Vr("@a")),
+           If1(Lt(L(0), L(1)), <<VarS("@b", L(2)), If1(Lt(L(0), L(1)), <<VarS("@b", L(3)), If1(Lt(L(0), L(1)), <<VarS("@b", L(4)), If1(Lt(L(0), L(1)), <<VarS("@b", L(5)), h2, Pr(Vr("@b"))>>), Pr(Vr("@b"))>>), Pr(Vr("@b"))>>), Pr(Vr("@b"))>>),
+           Pr(Vr("@a")), Pr(CallF("fact", L(4))), Pr(CallF("upto", L(2)))>>
+         : h1 \in InLoop \ {Ext, Brk}, h2 \in Basic}
+\* many declarations in one block (40 variables): the block of a loop pass, of a branch and of a function invocation is cleared
+\* all the same - the second pass, the second branch and the second invocation declare them again, and none is left afterwards
+ManyVars == [i \in 1..40 |-> VarS("@v" \o ToString(i), L(i))]
+Sk19 == {<<VarS("@a", L(0)), VarS("@i", L(0)),
+           While(Lt(Vr("@i"), L(2)), <<SetS("@i", Add(Vr("@i"), L(1)))>> \o ManyVars \o <<SetS("@a", Add(Vr("@a"), Vr("@v7"))), h1>>),
+           Pr(Vr("@a")),
+           If1(Lt(L(0), L(1)), ManyVars \o <<VarS("@a", L(100)), SetS("@a", Add(Vr("@a"), Vr("@v9")))>>),
+           If1(Lt(L(0), L(1)), ManyVars \o <<h2, Pr(Vr("@a"))>>),
+           Func("f", "@p", ManyVars \o <<If1(Lt(Vr("@p"), L(1)), <<Ret(Vr("@v3"))>>), Ret(Add(Vr("@v5"), CallF("f", Add(Vr("@p"), L(-1)))))>>),
+           Pr(CallF("f", L(2))), Pr(CallF("f", L(0))), h3, Pr(Vr("@a"))>>
+         : h1 \in InLoop \ {Ext}, h2, h3 \in {Pr(Vr("@v1")), SetS("@a", L(1)), Pr(Vr("@a")), Disp("@v2")}}
+PoolPrograms == Sk12 \cup Sk18 \cup Sk19
+
+Programs == Sk18 \cup Sk19 \cup Sk16 \cup Sk17 \cup Sk14 \cup Sk15 \cup Sk11 \cup Sk12 \cup Sk13 \cup Sk1 \cup Sk2 \cup Sk3 \cup Sk4 \cup Sk5 \cup Sk6 \cup Sk7 \cup Sk8 \cup Sk9 \cup Sk10
 
 CONSTANTS Fuel, ProgSet      \* ProgSet: the programs of this run (all families, or one)
 VARIABLE prog
